@@ -231,8 +231,15 @@ def main():
     ap.add_argument("--list", action="store_true")
     ap.add_argument("--skip", default="", help="comma-separated checks to leave out (e.g. C19: would the property-specific checks kill it too?)")
     ap.add_argument("--out", default="automut_results.json")
+    ap.add_argument("--only-survivors", default="", help="re-run only the mutants listed as survivors in this earlier results file "
+                                                        "(equivalent mutants must STAY silent when the workloads change)")
     a = ap.parse_args()
     allm = enumerate_mutants()
+    if a.only_survivors:
+        with open(os.path.join(HERE, a.only_survivors)) as f:
+            want = {(x["file"], x["line"], x["kind"], x["text"]) for x in json.load(f)["survivors"]}
+        allm = [m for m in allm if (m["file"], m["line"], m["kind"], m["text"]) in want]
+        a.n = len(allm)
     if a.list:
         from collections import Counter
         print(len(allm), Counter(m["kind"] for m in allm), Counter(m["file"].split("/")[-1] for m in allm))
